@@ -110,7 +110,15 @@ func FeedOpt(stream []byte, keys []ech.Key, writeFault string) (res Result) {
 		// Whatever NewConn returned alongside the error must not be readable as a hello;
 		// record what a careless caller could still read.
 		if c != nil {
+			// a caller logs what it can about the connection it refuses: the accessors of a Conn that came back together with
+			// an error must work (a panic here is caught above and reported like any other)
+			_, _, _, _ = c.ServerName(), c.ALPNProtos(), c.ECHAccepted(), c.ECHPresented()
 			res.Forwarded, res.ReadErr = drain(c)
+		}
+		// ... and of the nil Conn that comes back when not even a record could be read
+		var none *ech.Conn
+		if c == nil {
+			_, _, _, _ = none.ServerName(), none.ALPNProtos(), none.ECHAccepted(), none.ECHPresented()
 		}
 		return
 	}
